@@ -549,6 +549,37 @@ def run_func(case):
                                 "rejected calls and after the caller overwrote the array it "
                                 "got from the first call" % fn,
                                 {"fn": fn, "fseed": case["fseed"]}, mech="func-history:" + fn)
+    if fn not in ("monte_carlo_sure",) and not exclude:
+        # (c) the caller updates an array argument IN PLACE (new values in the same buffer) and
+        # calls again with the same objects: the result must be the one for the new values -
+        # i.e. equal to a call on fresh copies - nothing derived from an argument may be
+        # remembered by the identity of the array object
+        import copy
+        fl = [a_ for a_ in arrays([list(args), list(kwargs.values())])
+              if a_.dtype.kind in "fc" and a_.flags.writeable and a_.size]
+        if fl:
+            try:
+                f(*args, **kwargs)
+                for a_ in fl:
+                    a_ *= a_.dtype.type(-0.5)
+                    a_.reshape(-1)[::2] += a_.dtype.type(0.25)
+                r_same = f(*args, **kwargs)
+                r_fresh = f(*copy.deepcopy(args), **copy.deepcopy(kwargs))
+            except Exception:
+                r_same = r_fresh = None
+            if r_same is not None:
+                gs, gf = arrays(r_same), arrays(r_fresh)
+                checks += 1
+                if len(gs) != len(gf) or not all(
+                        u.shape == v.shape and np.allclose(u, v, rtol=1e-10, atol=0,
+                                                           equal_nan=True)
+                        for u, v in zip(gs, gf)):
+                    return violated(sig, "%s: after the caller changed an argument array in "
+                                    "place, a call with the same objects differs from a call on "
+                                    "fresh copies of the same values (something derived from the "
+                                    "old contents was remembered)" % fn,
+                                    {"fn": fn, "fseed": case["fseed"]},
+                                    mech="func-stale-argument:" + fn)
     return held(sig, {"arrays_checked": len(snaps)}, checks, len(snaps) > 0)
 
 
